@@ -1040,6 +1040,44 @@ func ruleLockDiscipline(c *Ctx, sel lockSel) {
 				fmt.Sprintf("%s (in %s) needs %s (%s) in mode %s, which is not held at this call and cannot be held by callers", lf.req.what, shortVia(lf.req.via), class, lf.lock, lf.req.mode))
 		}
 	}
+	// censuses of what was examined (a rule that examined nothing must not pass silently)
+	if sel.blocking {
+		nOps, nCalls, nFns := 0, 0, 0
+		for _, f := range la.order {
+			if !la.reach[f] || !wantPkg(sel, f) {
+				continue
+			}
+			nFns++
+			nOps += len(la.fns[f].blocks)
+			for _, cs := range la.fns[f].calls {
+				if len(cs.may) > 0 && !cs.isGo {
+					nCalls++
+				}
+			}
+		}
+		if nOps == 0 {
+			c.vanished("BLOCK-UNDER-LOCK", "census", "channel operations", "no potentially blocking channel operation found in the analysed packages")
+		} else {
+			c.ok("BLOCK-UNDER-LOCK", "census", "channel operations", "-", fmt.Sprintf("%d potentially blocking operations (bare sends/receives, selects without a stop case, Wait) in %d functions reachable from the thread roots and %d call sites made with a lock held were examined; none blocks under a lock of the selected classes", nOps, nFns, nCalls))
+		}
+	}
+	if sel.pairing {
+		nAcq := 0
+		for _, f := range la.order {
+			if la.reach[f] && wantPkg(sel, f) {
+				for _, a := range la.fns[f].acqs {
+					if wantClass(sel, a.class) {
+						nAcq++
+					}
+				}
+			}
+		}
+		if nAcq == 0 {
+			c.vanished("LOCK-PAIRING", "census", "acquisitions", "no lock acquisition of the selected classes found")
+		} else {
+			c.ok("LOCK-PAIRING", "census", "acquisitions", "-", fmt.Sprintf("%d acquisitions examined: every return is reached with the lock released or a deferred release pending (suppressions: %d)", nAcq, len(c.Suppress)))
+		}
+	}
 	// requirements surviving at the thread roots and at goroutine bodies
 	if !sel.noGuarded {
 		for _, f := range la.order {
